@@ -108,4 +108,5 @@ theorem group_isSome (grp : PCell) : (groupExpr (tcell grp)).isSome = stateRefGr
   · have hb : (gi.kind != -1) = true := by simpa using hk
     simp [hb, hk]
 
+
 end TonVerif.Proofs.SrcLocate
